@@ -512,29 +512,61 @@ pub fn run(args: &Args) -> i32 {
             if n == runs.len() / 2 {
                 samples.push(obj(vec![("script", arr_s(&script)), ("choices", J::Arr(choices.iter().map(|c| i(*c as u64)).collect())), ("trace", arr_s(&obs.trace))]));
             }
-            // nondeterminism guard: the same schedule must give the same observation
+            // nondeterminism guard: the same schedule must give the same observation. A failing
+            // schedule that does not reproduce exactly is executed a third time: if the failure
+            // shows in at least two of the three executions it is reported (the engine itself
+            // behaves non-deterministically under a fixed schedule - that is a race in the engine,
+            // the controller being deterministic on every schedule of the unchanged tree); a
+            // one-off is a machinery error.
             let check_twice = thorough || n < 4 || !obs.complaints.is_empty();
+            let mut flaky_note = String::new();
             if check_twice {
                 replays_checked += 1;
-                let mut again = execute(&script, choices, counter.fetch_add(1, Ordering::Relaxed));
                 let same = |a: &Observation, b: &Observation| a.machinery.is_none() && a.bestmoves.len() == b.bestmoves.len() && a.complaints.len() == b.complaints.len() && a.trace == b.trace;
+                let again = execute(&script, choices, counter.fetch_add(1, Ordering::Relaxed));
                 if !same(&again, obs) {
-                    // one more attempt before calling the schedule non-reproducible
-                    again = execute(&script, choices, counter.fetch_add(1, Ordering::Relaxed));
-                }
-                if again.machinery.is_some() || again.bestmoves.len() != obs.bestmoves.len() || again.complaints.len() != obs.complaints.len() || again.trace != obs.trace {
-                    eprintln!("MACHINERY: schedule {choices:?} of {name} is not reproducible: {:?} vs {:?}", obs.trace, again.trace);
-                    eprintln!("  first: {:?}\n  again: {:?} {:?}", obs.complaints, again.complaints, again.machinery);
-                    return 2;
+                    let third = execute(&script, choices, counter.fetch_add(1, Ordering::Relaxed));
+                    let failing = [obs, &again, &third].iter().filter(|o| o.machinery.is_none() && !o.complaints.is_empty()).count();
+                    let passing = [obs, &again, &third].iter().filter(|o| o.machinery.is_none() && o.complaints.is_empty()).count();
+                    if failing >= 2 && !obs.complaints.is_empty() {
+                        flaky_note = format!(" [the failure showed in {failing} of 3 executions of this schedule: the engine is not deterministic under a fixed schedule]");
+                    } else if passing >= 2 && obs.complaints.is_empty() && same(&third, obs) {
+                        // the second execution was the odd one out
+                    } else {
+                        eprintln!("MACHINERY: schedule {choices:?} of {name} is not reproducible: {:?} vs {:?}", obs.trace, again.trace);
+                        eprintln!("  first: {:?}\n  again: {:?} {:?}\n  third: {:?} {:?}", obs.complaints, again.complaints, again.machinery, third.complaints, third.machinery);
+                        return 2;
+                    }
                 }
             }
             if let Some(first) = obs.complaints.first() {
                 // signature: script + the state in which the decisive command was sent
                 sink.report(
                     format!("{name}|{}", choices.iter().map(|c| c.to_string()).collect::<Vec<_>>().join("")),
-                    format!("script {:?}, schedule {:?}: {first}; trace: {}", script, choices, obs.trace.join(" ; ")),
+                    format!("script {:?}, schedule {:?}: {first}{flaky_note}; trace: {}", script, choices, obs.trace.join(" ; ")),
                     obj(vec![("kind", s("schedule")), ("script", arr_s(&script)), ("choices", J::Arr(choices.iter().map(|c| i(*c as u64)).collect())), ("name", s(name))]),
                 );
+            }
+        }
+    }
+    // SAMPLED (not exhaustive), as in C14: both threads printing at once. An isready whose
+    // answer is glued onto a line of the search thread is a command that was "silently discarded"
+    // from the GUI's point of view. A torn line is a definite violation; its absence only samples
+    // the OS scheduling of the two threads.
+    let flood_rounds = if thorough { 20 } else { 5 };
+    let mut flood_lines = 0u64;
+    for round in 0..flood_rounds {
+        match super::procprops::flood_round() {
+            Err(e) => {
+                eprintln!("MACHINERY: {e}");
+                return 2;
+            }
+            Ok((n, bad)) => {
+                flood_lines += n;
+                if let Some(b) = bad {
+                    sink.report("flood|torn-line".into(), format!("isready flood while the search thread reports ~100 iterations (round {round}): {b}"), obj(vec![("kind", s("flood"))]));
+                    break;
+                }
             }
         }
     }
@@ -550,6 +582,8 @@ pub fn run(args: &Args) -> i32 {
             ("deviation_bound".into(), if thorough { s("unbounded (all merges)") } else { i(bound as u64) }),
             ("distinct_outcomes".into(), i(outcomes.len() as u64)),
             ("schedules_replayed_twice".into(), i(replays_checked)),
+            ("sampled_output_interleaving_rounds".into(), i(flood_rounds as u64)),
+            ("sampled_output_interleaving_lines_checked".into(), i(flood_lines)),
             ("rule".into(), s("a schedule = one merge of the command script with the search thread's held points {enter, armed, first iteration done, before bestmove, after bestmove, exit}, respecting the GUI protocol (a new go only after the previous bestmove was printed); states/transitions = scheduling decisions executed; every schedule runs on a fresh real process")),
         ],
         assumptions: vec![
